@@ -124,7 +124,7 @@ def instance(cls, env):
 
 OPERAND_SLOTS = ["arith_left", "arith_right", "cmp_left", "cmp_right", "bool_right", "not", "neg", "in_term", "in_elem", "between_term", "between_lo",
                  "fn_arg", "case_when", "case_then", "case_else", "tuple_elem", "array_elem", "isnull", "where_root", "having_root", "on_root",
-                 "win_partition", "win_order", "select_arith", "select_fn_arg", "insert_value", "insert_row_last", "update_set_value", "orderby_expr", "groupby_expr"]
+                 "win_partition", "win_order", "select_arith", "select_fn_arg", "insert_value", "insert_row_last", "update_set_value", "orderby_expr", "groupby_expr", "conflict_target"]
 DEFINING = ["select", "select_last", "returning", "distinct_on"]
 # the same operand slots with the enclosing expression as a select-list item (the one clause rendered with with_alias=True), and with it as
 # an aliased select-list item: the operand's alias must not appear, the item's own alias exactly once
@@ -218,6 +218,8 @@ def statement(cls_name, pos, X, as_selectable=False):
         return Q.into(t).columns("c").insert(X)
     elif pos == "insert_row_last":
         return Q.into(t).columns("c", "d").insert((1, 2), (3, X))
+    elif pos == "conflict_target":
+        return Q.into(t).columns("c").insert(1).on_conflict(X).do_nothing()
     elif pos == "update_set_value":
         return Q.update(t).set(d, X).where(c == 1)
     elif pos == "orderby_expr":
@@ -426,10 +428,15 @@ def check_groupby(tcls, cls_name, clause, defined):
 
 
 VALUES_POSITIONS = ("insert_value", "insert_row_last")
+TARGET_POSITIONS = ("conflict_target",)
 
 
 def sig_of(tcls, pos, kind, cls_name="generic"):
     grp = pos if pos in DEFINING + ["from", "join", "groupby", "orderby"] else "operand"
+    if kind == "leaked" and pos in TARGET_POSITIONS:
+        r = check_cell(tcls, cls_name, "cmp_left", "as_")
+        if not (r[0] == "viol" and r[1] == "leaked"):
+            return mksig("conflict_target", "leaked")
     if kind == "leaked" and pos in VALUES_POSITIONS:
         # one root cause for every term class: the VALUES clause asks its terms for their alias - unless the class prints it everywhere anyway
         r = check_cell(tcls, cls_name, "cmp_left", "as_")
